@@ -259,9 +259,12 @@ class SMIO(GameIO):
                 if not (_num_ok(b.get("offset")) and _num_ok(b.get("bpm")) and b["bpm"] > 0 and _num_ok(b.get("metronome"))
                         and float(b["metronome"]).is_integer() and 1 <= b["metronome"] <= 16):
                     return "tempo point out of domain"
-            key = sorted((float(b["offset"]), float(b["bpm"])) for b in bp)
+            key = [(float(b["offset"]), float(b["bpm"])) for b in bp]
             if len({t for t, _ in key}) != len(key):
-                return "two tempo points at one time"
+                # several values on one time: in the domain only when they stand together and in time order in the list (then
+                # "the last one listed is in force" needs no tie-breaking rule of its own)
+                if [t for t, _ in key] != sorted(t for t, _ in key):
+                    return "two tempo points at one time in a list that is not in time order"
             if first_bpms is None:
                 first_bpms = key
             elif len(key) != len(first_bpms) or any(abs(x[0] - y[0]) > 1e-9 or abs(x[1] - y[1]) > 1e-9 for x, y in zip(key, first_bpms)):
